@@ -187,6 +187,9 @@ class LoggingMonitor(pp.TransferMonitor):
 
     def notify_job_complete(self, transfer_id):
         self.w.director.point(self.w.director.occurrence(f't{transfer_id}/pp:job_complete'), 'before')
+        # (logged before the call as well: the 'pp.job_complete' event below is written after the count was taken and may
+        # therefore reach the log later than another worker's done notification)
+        self.w.log.add('pp.job_complete.begin', label=f't{transfer_id}')
         r = super().notify_job_complete(transfer_id)
         self.w.log.add('pp.job_complete', label=f't{transfer_id}', remaining=r)
         return r
